@@ -18,6 +18,7 @@ R5 reported = applied, in weight order: get_quantizers() returns the
    quantizers that call() applies to the weights, in the Keras weight order.
 """
 import ast
+import itertools
 from fractions import Fraction as F
 
 from ..loader import AnalysisError
@@ -37,9 +38,11 @@ def W(name):
 def qm(role):
   return Mock("q_" + role, {
       "__str__": lambda pe, a, k, role=role: "Q:" + role,
-      "__call__": lambda pe, a, k, role=role: Tensor(
-          ("app", "Q_" + role, (), (pe.as_term(a[0]),)),
-          a[0].shape if isinstance(a[0], Tensor) else None),
+      # a quantizer handed None (an absent bias) yields a value that must
+      # not be used: it stays None, so any use raises in the interpreter
+      "__call__": lambda pe, a, k, role=role: None if a[0] is None else \
+      Tensor(("app", "Q_" + role, (), (pe.as_term(a[0]),)),
+             a[0].shape if isinstance(a[0], Tensor) else None),
       "__class__": Mock("class", {"__name__": "quantized_bits"})})
 
 
@@ -202,7 +205,7 @@ def make_layer(ci, spec, quantized, pe):
       a["state_quantizer"] = None
       a["state_quantizer_internal"] = None
     a["units"] = 4
-    a["use_bias"] = True
+    a["use_bias"] = not spec.get("nobias")
     a["dropout"] = 0.0
     a["recurrent_dropout"] = 0.0
     a.setdefault("implementation", 1)
@@ -210,8 +213,10 @@ def make_layer(ci, spec, quantized, pe):
     a["recurrent_activation"] = qm("ract")
     a["get_dropout_mask_for_cell"] = lambda pe, ar, k: None
     a["get_recurrent_dropout_mask_for_cell"] = lambda pe, ar, k: None
-  a["use_bias"] = True
-  a["activation"] = qm("act")
+  a["use_bias"] = not spec.get("nobias")
+  if spec.get("nobias"):
+    a["bias"] = None      # Keras' build() leaves self.bias = None
+  a["activation"] = None if spec.get("noact") else qm("act")
   a.update(spec["geom"])
   a["convolution_op"] = lambda pe, ar, k: Tensor(
       ("app", "convolution_op", (), tuple(pe.as_term(x) for x in ar)), None)
@@ -329,6 +334,14 @@ def variants():
     if spec.get("rnn"):
       i2 = dict(spec, geom=dict(spec.get("geom", {}), implementation=2))
       out.append((qual, i2, "implementation=2"))
+    # the bias and the activation are optional, independently of each other
+    if "bias" in spec["weights"]:
+      out.append((qual, dict(spec, nobias=True), "use_bias=False"))
+    if not spec.get("rnn"):
+      out.append((qual, dict(spec, noact=True), "activation=None"))
+      if "bias" in spec["weights"]:
+        out.append((qual, dict(spec, nobias=True, noact=True),
+                    "use_bias=False,activation=None"))
   return out
 
 
@@ -370,6 +383,11 @@ def rule_layers(rep, repo, tier="quick"):
       # R1 pairing
       for attr, role in sorted(spec["weights"].items()):
         parents = [p for nme, p in lv if nme == attr]
+        if attr == "bias" and spec.get("nobias"):
+          rep.check(not parents, "R1", unit, "bias-used-without-bias",
+                    "%s: the bias reaches the output although use_bias is "
+                    "off" % cfg, loc=loc, instance=cfg)
+          continue
         rep.check(bool(parents), "R1", unit, "weight-unused:" + attr,
                   "%s: the weight %s does not reach the output" % (cfg, attr),
                   loc=loc, instance=cfg)
@@ -390,7 +408,13 @@ def rule_layers(rep, repo, tier="quick"):
       # R2 order
       root_ok = term[0] == "app" and term[1] == "Q_act"
       gated = ci.name in ("QLSTMCell", "QGRUCell")
-      if gated:
+      if spec.get("noact"):
+        rep.check(not find_apps(term, "Q_act"), "R2", unit,
+                  "activation-applied-when-unset",
+                  "%s: an activation is applied although none is "
+                  "configured" % cfg, loc=loc, instance=cfg)
+        root_ok = False
+      elif gated:
         # gated cells combine the activation with the gates afterwards
         root_ok = False
         rep.check(bool(find_apps(term, "Q_act")), "R2", unit,
@@ -403,7 +427,7 @@ def rule_layers(rep, repo, tier="quick"):
                   "the activation quantizer" %
                   (cfg, term[1] if term[0] == "app" else term[0]), loc=loc,
                   instance=cfg)
-      if root_ok and "bias" in spec["weights"]:
+      if root_ok and "bias" in spec["weights"] and not spec.get("nobias"):
         rep.check(contains_sym(term[3][0], "bias"), "R2", unit,
                   "bias-after-activation",
                   "%s: the bias is not part of the activation's argument" %
@@ -555,13 +579,19 @@ def rule_pooling(rep, repo):
     unit = "%s::%s.call" % (ci.module.relpath, ci.name)
     rep.unit(unit)
     owner, fn = ci.find_method("call")
-    for df_arg, global_df in (("channels_last", "channels_last"),
-                              ("channels_first", "channels_last"),
-                              (None, "channels_last"),
-                              (None, "channels_first")):
+    pools = ((2, 3), 3) if cname == "QAveragePooling2D" else (None,)
+    for (df_arg, global_df), pool in itertools.product(
+        (("channels_last", "channels_last"),
+         ("channels_first", "channels_last"),
+         (None, "channels_last"),
+         (None, "channels_first")), pools):
+      area = None if pool is None else (pool * pool if isinstance(
+          pool, int) else pool[0] * pool[1])
       for quantized in (True, False):
-        cfg = "%s(data_format=%s,global=%s,%s)" % (
-            cname, df_arg, global_df, "quantized" if quantized else "plain")
+        cfg = "%s(%sdata_format=%s,global=%s,%s)" % (
+            cname, "" if pool in (None, (2, 3)) else "pool_size=%r," % (
+                pool,), df_arg, global_df,
+            "quantized" if quantized else "plain")
 
         def getq(pe, a, k):
           v = a[0] if a else k.get("quantizer")
@@ -578,6 +608,14 @@ def rule_pooling(rep, repo):
           me = pe.external_super_self
           for kk, vv in k.items():
             me.attrs[kk] = vv
+          # ints are normalised to one entry per spatial dimension
+          # (conv_utils.normalize_tuple); strides default to the pool size
+          if isinstance(k.get("pool_size"), int):
+            me.attrs["pool_size"] = (k["pool_size"],) * 2
+          if "pool_size" in k:
+            st = k.get("strides")
+            me.attrs["strides"] = me.attrs["pool_size"] if st is None else (
+                (st,) * 2 if isinstance(st, int) else st)
           me.attrs["data_format"] = k.get("data_format") or g
           me.attrs.setdefault("keepdims", False)
         pe.ext_overrides = {
@@ -588,7 +626,7 @@ def rule_pooling(rep, repo):
         kw = {"data_format": df_arg, "activation": "QACT",
               "average_quantizer": "QAVG" if quantized else None}
         if cname == "QAveragePooling2D":
-          kw["pool_size"] = (2, 3)
+          kw["pool_size"] = pool
         try:
           o = pe.call(pe.lookup_global(cname, qp), [], kw)
         except PyRaise as e:
@@ -612,8 +650,8 @@ def rule_pooling(rep, repo):
           inner = mk_app("reduce_sum", [X], (spatial, False)) * mk_app(
               "Q_average", [NF.const(F(1, 56))])
         elif quantized:
-          inner = mk_app("super.call", [X * 6]) * mk_app(
-              "Q_average", [NF.const(F(1, 6))])
+          inner = mk_app("super.call", [X * area]) * mk_app(
+              "Q_average", [NF.const(F(1, area))])
         else:
           inner = mk_app("super.call", [X])
         want = mk_app("Q_act", [inner])
